@@ -99,12 +99,14 @@ Definition midi_tracks (tpq : Z) (names : list string) (rows : list row) : optio
   | Some nb =>
       let progs := new_programs names in
       let drums := new_is_drum names in
-      Some (map (fun i =>
+      let trs := map (fun i =>
               let p := nth i progs 0 in
               let d := nth i drums false in
               mkMT (channel_of progs d p) p
                    (with_deltas tpq 0 (track_events (filter (fun r => Nat.eqb (r_track r) i) merged))))
-            (seq 0 (S nb)))
+            (seq 0 (S nb)) in
+      (* more than 15 programs: number_to_channel runs past the 16 MIDI channels and mido refuses the message (ValueError) *)
+      if forallb (fun t => (0 <=? mt_channel t) && (mt_channel t <=? 15)) trs then Some trs else None
   end.
 
 (* ---- correspondence checker ---- *)
